@@ -82,6 +82,10 @@ T = {
  "C41-4": ("C41", "read-only open of a journal with a torn tail", "first-run", "C03 truncate-needs-tryTruncate, C41 mutation-needs-can-write", "same mechanism as C41-2"),
  "C45-3": ("C45", "a commit whose Execute lands while the replication thread builds its session for an older root", "first-run", "C45 attempt-opened-under-lock", "same mechanism as C45-1 (rule added for that seed)"),
  "C45-4": ("C45", "a branch and a tag with the same name on the remote, the branch deleted there", "missed", "", "identity key of a ref (GetPath vs String) is value-level; a rule naming the accessor would fire on equivalent rewrites"),
+ "C22-1": ("C22", "two databases; the reader's session has never referenced db B; reader starts a transaction, another session commits to B, reader reads B for the first time", "strengthened", "C22 tx-snapshot-covers-all-dbs (the databases handed to NewDoltTransaction are drawn from the provider's full DoltDatabases() list)", "the builder's rule set froze `AddDb` as a legitimate late start point but did not require the start-time list to be complete"),
+ "C22-2": ("C22", "reader reads AS OF 'HEAD' twice in one transaction around another session's dolt_commit on the same branch", "strengthened", "C22 resolve-at-root-never-live (in getHashFromCommitSpec the live resolver only where root.IsEmpty())", "the first C22 rules stopped at package dsess/sqle; the by-root resolver in doltdb was not covered"),
+ "C33-1": ("C33", "an ENUM/SET column redefined with shifted members after the commit, read through dolt_history_t", "missed", "", "value-level: which type pairs count as compatible in the history row converter (patch re-based onto fix a457b05, see REBASE_NOTE.txt)"),
+ "C33-2": ("C33", "unfiltered COUNT(*) ... AS OF a commit whose row count differs from the working set", "first-run", "C33 locked-root (rows are read from the table DoltTable() answers)", ""),
  "C18-1": ("C18", "a commit with three or more parents whose third parent has ancestors the first two lack (octopus merge)", "strengthened", "C18 closure-loops-complete (a loop over the parents is left only through its condition or towards an error return)", "the first C18 rule set checked that every iteration performs the diff, not that the loop is not left early"),
  "C18-2": ("C18", "a duplicate parent listed before a different parent ([A, A, B])", "first-run", "C18 heights-from-parents (parents[j] decoded from the value read for opts.Parents[j])", ""),
  "C19-1": ("C19", "two merge commits of equal height that share a direct parent while a more recent common ancestor exists", "missed", "", "an added fast path that returns a (non-maximal) common ancestor: which ancestor is highest is a value-level fact about the graph; a rule 'results come only from the closure walk' would also fire on a correct fast path"),
